@@ -684,12 +684,97 @@ func permutePairs(t *rapid.T, root *icbor.Node) {
 	root.Pairs = rapid.Permutation(root.Pairs).Draw(t, "keyorder")
 }
 
+// c04Extension: body of profile p (valid, or with rule-level deviations),
+// declared as the registered extension of that profile, with the extension's
+// own claim absent / conformant / rejected by the extension's own rule.
+// Acceptance by decode-and-validate == (base rules met) && (own rule met).
+func c04Extension(t *rapid.T, p Prof) (msg string, class string) {
+	var m *MClaims
+	if genBool.Draw(t, "ext.modelvalid") {
+		m = GenValid(t, p, false)
+	} else {
+		m = GenAny(t, p)
+	}
+	name := ExtP2Name
+	if p == P1 {
+		name = ExtP1Name
+	}
+	if m.Profile == nil || *m.Profile != p.Name() {
+		m.Profile = sp(p.Name()) // the profile claim is not what is varied here
+	}
+	var ts *int64
+	if rapid.IntRange(0, 3).Draw(t, "ext.own") > 0 {
+		v := rapid.SampledFrom([]int64{0, 5, 1 << 40, -1, -1 << 40, extTSNotInProfile, extTSOptionalish, 12, 18}).Draw(t, "ext.ts")
+		ts = &v
+	}
+	var ps [][2]*icbor.Node
+	pk := wireKey(p, CProfile)
+	for _, pr := range m.WirePairs() {
+		if k, _ := pr[0].Int(); k == pk {
+			pr = icbor.P(icbor.I(pk), icbor.Tstr(name))
+		}
+		ps = append(ps, pr)
+	}
+	if ts != nil {
+		ps = append(ps, icbor.P(icbor.I(-75100), icbor.I(*ts)))
+	}
+	tok := icbor.Encode(icbor.Map(ps...))
+	want := m.Valid() && !extRuleBroken(ts)
+	class = fmt.Sprintf("accepted|%s|%v", m.ClassVector(), ts != nil)
+	if !want {
+		class = fmt.Sprintf("rejected|%s|%s", m.ClassVector(), fmtI64(ts))
+	}
+	withExtProfiles(func() {
+		type cu interface{ UnmarshalCBOR([]byte) error }
+		var c psatoken.IClaims
+		var err error
+		if p == P2 {
+			c, err = psatoken.DecodeAndValidateClaimsFromCBOR(tok)
+		} else {
+			// a profile-1 derived name travels under -75000, which the CBOR
+			// dispatcher does not look at: no verdict through the dispatcher
+			return
+		}
+		if (err == nil) != want {
+			msg = fmt.Sprintf("decode-and-validate = %v for a token declaring %q; base rules met: %v, the extension's own claim: %s (own rule broken: %v)\n  token: %x", err, name, m.Valid(), fmtI64(ts), extRuleBroken(ts), tok)
+			return
+		}
+		if err == nil {
+			if got := fmt.Sprintf("%T", c); got != "*checks.ExtP2Claims" {
+				msg = fmt.Sprintf("accepted token declaring %q decodes as %s", name, got)
+				return
+			}
+			mm := m.Clone()
+			mm.Profile = sp(name)
+			if gp, gerr := c.GetProfile(); gerr != nil || gp != name {
+				msg = fmt.Sprintf("accepted token declaring %q reports profile %q, %v", name, gp, gerr)
+				return
+			}
+			if own := c.(*ExtP2Claims).Timestamp; (own == nil) != (ts == nil) || (own != nil && *own != *ts) {
+				msg = fmt.Sprintf("accepted token: the extension's own claim is %s, the wire has %s", fmtI64(own), fmtI64(ts))
+			}
+		}
+	})
+	return msg, class
+}
+
 func TestC04_Product(t *testing.T) {
 	st := NewStats("C04", "TestC04_Product", "rapid: a model claims-set of profile 1 or 2 with 0..4 rule-level deviations (generator of C01) is encoded by the independent encoder; then 0..3 wire-level mutations hit random known keys or component fields: null / undefined, a value of every other major type (incl. array-of-uints spelling the bytes, bstr<->tstr look-alikes, floats 1.0/NaN/12288.0), out-of-width integers (2^16, 2^31, -2^31-1, 2^32, 2^63, 2^64-1, -2^64), tags, indefinite-length strings/arrays/maps, non-preferred head widths, duplicate keys; plus key permutation, 0..3 unknown extra keys (int, negative, huge, text; the other profile's keys), one-element nonce arrays, indefinite / long-head top-level map, the other profile's complete key set mixed in. Oracle: decode-and-validate accepts iff model valid and no non-conformant wire form; accepted tokens return exactly the wire values from every getter (components in order, optional fields intact); encodings the specifications leave open (tags, duplicate keys, one-element nonce array, flag != 1, non-preferred heads) get no accept/reject verdict. Non-trivial = at least one key in a non-default class; distinct = class vector + wire mutations + key-order hash")
-	st.Require = []string{"accepted", "rejected", "open-accepted", "P1", "P2", "wire=null", "wire=wrongtype", "wire=outofwidth", "wire=indefinite", "wire=tagged", "wire=dupkey", "wire=longhead", "extra-keys", "mixed-profile-keys", "component-field", "wire=p1-with-nontext-265"}
+	st.Require = []string{"accepted", "rejected", "open-accepted", "P1", "P2", "wire=null", "wire=wrongtype", "wire=outofwidth", "wire=indefinite", "wire=tagged", "wire=dupkey", "wire=longhead", "extra-keys", "mixed-profile-keys", "component-field", "wire=p1-with-nontext-265", "declares-extension"}
 	defer st.Flush(t)
 	rapid.Check(t, func(t *rapid.T) {
 		p := drawProf(t)
+		if rapid.IntRange(0, 11).Draw(t, "declares-extension") == 0 {
+			// "a conformant token of the profile it DECLARES": a token that
+			// declares a registered profile derived from profile 2 (or 1) whose
+			// Validate() adds a rule of its own on top of the base rules
+			msg, cls := c04Extension(t, p)
+			if msg != "" {
+				t.Fatalf("C04 violated (token declaring a registered extension profile): %s", msg)
+			}
+			st.Case(cls, "declares-extension", p.String(), strings.SplitN(cls, "|", 2)[0])
+			return
+		}
 		var m *MClaims
 		if rapid.IntRange(0, 2).Draw(t, "modelvalid") > 0 {
 			m = GenValid(t, p, false)
